@@ -530,6 +530,11 @@ pub fn replay_doc(prep: &Prepared, gen: Option<(u64, u64, &str)>, plan: &CabiPla
 }
 
 fn job_workload(master: u64, job: u64, tier: Tier) -> Vec<u8> {
+    if tier == Tier::Thorough && job >= 1200 {
+        if let Some(f) = workload::sample_file((job - 1200) as usize) {
+            return f;
+        }
+    }
     let mut rng = Rng::new(derive(master ^ 0xcab1, job));
     if tier == Tier::Thorough && job == 0 {
         // the 128 MiB bound: a signature-free file whose expanded form (version byte, chunk tag,
@@ -618,7 +623,7 @@ impl Engine for CabiEngine {
     fn jobs(&self, tier: Tier) -> u64 {
         match tier {
             Tier::Quick => 128,
-            Tier::Thorough => 1200,
+            Tier::Thorough => 1200 + workload::SAMPLE_FILES.len() as u64,
         }
     }
 
